@@ -60,6 +60,8 @@ pub mod error;
 pub mod filesystem;
 pub mod impls;
 pub mod path;
+#[cfg(manuel_woelker_rust_vfs_verif)]
+pub mod verif_hooks;
 
 #[cfg(feature = "async-vfs")]
 pub mod async_vfs;
